@@ -894,6 +894,71 @@ func execSeq(intents []string, st *Stats) (final, outs, oracle []string) {
 				s.phantom[id] = false
 			}
 			emit(line, miscErrKind(err))
+		case "relrace":
+			// Release ‖ Next on ONE object. Release is started first and parked inside its
+			// transaction (db.lock held: its Txn.Get waits in getMemTables); then Next is called.
+			// Both methods hold seq.lock for their whole body, so Next must wait for Release
+			// (sched=blocked: it neither returns nor reaches its own transaction while Release
+			// is parked). Any other schedule means the lock does not cover Release's transaction.
+			id, _ := strconv.Atoi(w[1])
+			seq := s.objs[id]
+			if seq == nil {
+				emit(line, "bad-op")
+				continue
+			}
+			type nres struct {
+				v   uint64
+				err error
+			}
+			release := badger.VerifHoldDBLock(s.db)
+			relCh := make(chan error, 1)
+			go func() { relCh <- seq.Release() }()
+			deadline := time.Now().Add(3 * time.Second)
+			for countBlockedInGet() < 1 && time.Now().Before(deadline) {
+				time.Sleep(100 * time.Microsecond)
+			}
+			nextCh := make(chan nres, 1)
+			go func() {
+				v, err := seq.Next()
+				nextCh <- nres{v, err}
+			}()
+			sched := "blocked"
+			var nr nres
+			got := false
+			wait := time.Now().Add(40 * time.Millisecond)
+			for time.Now().Before(wait) && !got && sched == "blocked" {
+				select {
+				case nr = <-nextCh:
+					got, sched = true, "free" // Next ran to completion while Release was parked
+				default:
+					if countBlockedInGet() >= 2 {
+						sched = "free-parked" // Next reached its own transaction while Release was parked
+					} else {
+						time.Sleep(500 * time.Microsecond)
+					}
+				}
+			}
+			release()
+			rerr := <-relCh
+			if !got {
+				nr = <-nextCh
+			}
+			if rerr == nil && s.phantom[id] {
+				s.tainted = true
+			}
+			ns := miscErrKind(nr.err)
+			if nr.err == nil {
+				ns = fmt.Sprintf("ok:%d", nr.v)
+			}
+			emit(fmt.Sprintf("relrace %d sched=%s", id, sched), fmt.Sprintf("release=%s next=%s", miscErrKind(rerr), ns))
+			st.Inc("relrace:" + sched)
+			if sched != "blocked" {
+				fail("C30-release-lock", fmt.Sprintf("Next on object %d ran (%s) while Release on the same object was inside its transaction: seq.lock does not cover Release's read-modify-write", id, sched))
+			}
+			if nr.err == nil {
+				s.phantom[id] = false
+				hand(id, nr.v)
+			}
 		case "state":
 			id, _ := strconv.Atoi(w[1])
 			seq := s.objs[id]
@@ -1004,8 +1069,12 @@ func genSeqSession(rng *rand.Rand, st *Stats) []string {
 				ps = append(ps, strconv.Itoa(live[p]))
 			}
 			ops = append(ops, "race "+strings.Join(ps, " "))
-		case r < 78:
+		case r < 75:
 			ops = append(ops, fmt.Sprintf("release %d", live[rng.Intn(len(live))]))
+		case r < 78:
+			// Release and Next at the same time on one object, then keep using it
+			id := live[rng.Intn(len(live))]
+			ops = append(ops, fmt.Sprintf("relrace %d", id), fmt.Sprintf("next %d", id), fmt.Sprintf("next %d", id))
 		case r < 84:
 			ops = append(ops, fmt.Sprintf("state %d", live[rng.Intn(len(live))]))
 		case r < 90:
